@@ -904,6 +904,16 @@ func (s *blobStore) completePushAfterInitialPost(ctx context.Context, req *http.
 		return fmt.Errorf("mismatch content length %d: expect %d", req.ContentLength, expected.Size)
 	}
 	req.ContentLength = expected.Size
+	if expected.Size == 0 && req.Body != nil && req.Body != http.NoBody {
+		// net/http treats a zero ContentLength with a non-nil Body as an
+		// unknown length and sends the body chunked, without Content-Length.
+		// Make sure that the content is indeed empty and send an empty body.
+		if n, _ := io.ReadFull(req.Body, make([]byte, 1)); n > 0 {
+			return fmt.Errorf("mismatch content length: expect %d", expected.Size)
+		}
+		req.Body = http.NoBody
+		req.GetBody = func() (io.ReadCloser, error) { return http.NoBody, nil }
+	}
 	// the expected media type is ignored as in the API doc.
 	req.Header.Set("Content-Type", "application/octet-stream")
 	q := req.URL.Query()
